@@ -628,11 +628,12 @@ class UrwidImageScreen(urwid.raw_display.Screen):
 
         screen_canv = self._ti_screen_canv
 
-        if not isinstance(screen_canv, urwid.CompositeCanvas):
-            if self._ti_image_cviews:
-                self.clear_images()
-                self._ti_image_cviews.clear()
-            return
+        if isinstance(screen_canv, urwid.CompositeCanvas):
+            shards = screen_canv.shards
+        else:
+            # A lone canvas (possibly an image canvas) covers the entire screen
+            cols, rows = screen_canv.cols(), screen_canv.rows()
+            shards = [(rows, [(0, 0, cols, rows, None, screen_canv)])]
 
         def process_shard_tails():
             nonlocal col
@@ -649,7 +650,7 @@ class UrwidImageScreen(urwid.raw_display.Screen):
         shard_tails = {}
         row = 1
 
-        for n_rows, cviews in screen_canv.shards:
+        for n_rows, cviews in shards:
             col = 1
             for cview in cviews:
                 process_shard_tails()
